@@ -140,12 +140,14 @@ def run_case(case):
     fault = case.get("fault")
     keys = []
     resp_lens = {}
+    hop_tls = []
 
     def factory(sock, addr):
         def respond(req, s, n):
-            i = s.index
+            i = len(keys)  # hop number = number of requests seen so far (a hop may or may not open a new socket)
+            hop_tls.append((i, s.tls is not None, s.index))
             keys.append(simnet.request_key(req))
-            if i >= len(hops) or n > 0:
+            if i >= len(hops):
                 return [b"HTTP/1.1 404 Not Found\r\n\r\n"]
             resp = build_response(hops[i], req, keys[-2] if len(keys) > 1 else None)
             resp_lens[i] = len(resp)
@@ -204,6 +206,12 @@ def run_case(case):
             left = [s.index for s in net.sockets if not s.closed]
             if left:
                 obs.fail(f"failure|socket-left-open|{what}", f"sockets {left} not closed after {type(raised).__name__}: {raised}")
+    # every hop whose URL is wss must run inside TLS (recording fake ssl), every ws hop outside - also when hops share host and port
+    scheme = ["ws"] + [(h.get("location") or "ws:").split(":", 1)[0] for h in hops]
+    for i, tls, sidx in hop_tls:
+        if i < len(scheme) and scheme[i] in ("ws", "wss") and tls != (scheme[i] == "wss"):
+            obs.fail(f"redirect|hop-tls-mismatch|{scheme[i]}", f"hop {i} ({scheme[i]}) was sent {'inside' if tls else 'outside'} TLS on socket {sidx}; hops={[h.get('location') for h in hops]}")
+            break
     if len(net.sockets) > limit + 1:
         obs.fail("redirect|more-sockets-than-limit+1", f"{len(net.sockets)} sockets opened with redirect_limit={limit}")
     canonical = len(hops) == 1 and not fault and exp is True and not any(
@@ -297,6 +305,14 @@ def cases(draw):
     hops = []
     for i in range(nred):
         r = {"status": draw(st.sampled_from(REDIRECTS)), "location": f"ws://hop{i + 1}.test:{8000 + i}/p{i}?q={i}"}
+        m = draw(st.integers(0, 5))
+        if m == 0:
+            r["location"] = f"wss://hop{i + 1}.test:{8000 + i}/s{i}"
+        elif m == 1:  # same host and port as the hop before, other scheme / same scheme
+            prev = "origin.test" if i == 0 else f"hop{i}.test:{8000 + i - 1}"
+            r["location"] = f"{draw(st.sampled_from(['wss', 'ws']))}://{prev}/again{i}"
+        if draw(st.integers(0, 3)) == 0:
+            r["extra"] = [("Connection", "keep-alive")]
         if draw(st.integers(0, 9)) == 0:
             r["location"] = None
         if draw(st.booleans()):
@@ -331,6 +347,17 @@ def offset_cases():
                     yield c
 
 
+def status_cases():
+    for status in range(100, 600):
+        for full in (True, False):
+            h = {"status": status}
+            if not full:
+                h.update(upgrade=None, connection=None, accept="missing")
+            if status in REDIRECTS:
+                continue
+            yield {"api": "connect" if status % 2 else "create_connection", "hops": [h]}
+
+
 def jobs(tier, seed):
     n, shards = (4000, 8) if tier == "quick" else (224000, 16)
     out = [{"name": "offsets", "kind": "offsets"}]
@@ -342,6 +369,9 @@ def run_job(job, coll):
     if job["kind"] == "offsets":
         for c in offset_cases():
             coll.check(c, run_case)
+        for c in status_cases():
+            coll.check(c, run_case)
+        coll.exhaustive["every status code 100..599 as the final response, with and without a complete upgrade head"] = True
         coll.exhaustive["EOF/timeout after every byte offset of 6 response chains"] = True
     else:
         hyp_run(coll, cases(), run_case, job["seed"], job["n"])
